@@ -204,7 +204,7 @@ def rule_table(ctx):
             raise AnalysisError("%s does not consult is_compression_format" % fname)
         arg = calls[0].args[0]
         ev = _path_eval(h, {h.params[0]: _Name((True, True, True))},
-                        lambda t: True if t.endswith(" is None") else None, stop_at=calls[0])
+                        lambda t: True if t.endswith(" is None") else (False if t.endswith(" is not None") else None), stop_at=calls[0])
         val = ev(arg)
         ok = val == ("fmt",)
         forms = [val]
